@@ -350,7 +350,8 @@ def make_cases(ctx):
         p['params'] = [{'name': pn, 'default': 1, 'annot': None}, {'name': 'gate', 'default': 1, 'annot': None}]
         add('pname', p, expect=exp)
 
-    # (c) variants: valid boundary (full name exactly 32) and invalid ones (F19)
+    # (c) variants: valid boundary (full name exactly 32) and invalid ones (F19): the valid prefix is written,
+    # the count must be the number of variants that follow
     def vprog():
         g = Gen(rng, rng.randint(1, 5), 3)
         p = g.program('v')
@@ -362,14 +363,14 @@ def make_cases(ctx):
             'variants': [['a', [['nope', 1]]]],
             'body': [{'cls': 'SinOsc', 'meth': 'ar', 'args': [{'p': 0}, {'k': 0}]},
                      {'cls': 'Out', 'meth': 'ar', 'args': [{'k': 0}, {'v': 0, 'single': 1}]}]}
-    add('variant', pmin, expect='raise',
+    add('variant', pmin, expect='model',
         python="SynthDef('v', lambda freq=440: Out.ar(0, SinOsc.ar(freq)), variants={'a': {'nope': 1}}).as_bytes()")
     p = vprog(); p['name'] = 'n' * 28; p['variants'] = [['abc', [['freq', 220]]]]; add('variant', p, expect='ok')
-    p = vprog(); p['name'] = 'n' * 29; p['variants'] = [['abc', [['freq', 220]]]]; add('variant', p, expect='raise')
-    p = vprog(); p['variants'] = [['a', [['nope', 1]]]]; add('variant', p, expect='raise')
-    p = vprog(); p['variants'] = [['a', [['freq', 220]]], ['b', [['nope', 1]]]]; add('variant', p, expect='raise')
-    p = vprog(); p['variants'] = [['a', [['freq', [1, 2]]]]]; add('variant', p, expect='raise')
-    p = vprog(); p['variants'] = [['a', [['amps', [1, 2, 3, 4]]]]]; add('variant', p, expect='raise')
+    p = vprog(); p['name'] = 'n' * 29; p['variants'] = [['abc', [['freq', 220]]]]; add('variant', p, expect='model')
+    p = vprog(); p['variants'] = [['a', [['nope', 1]]]]; add('variant', p, expect='model')
+    p = vprog(); p['variants'] = [['a', [['freq', 220]]], ['b', [['nope', 1]]]]; add('variant', p, expect='model')
+    p = vprog(); p['variants'] = [['a', [['freq', [1, 2]]]]]; add('variant', p, expect='model')
+    p = vprog(); p['variants'] = [['a', [['amps', [1, 2, 3, 4]]]]]; add('variant', p, expect='model')
     p = vprog(); p['variants'] = [['a', [['amps', [1, 2, 3]], ['gate', 0]]], ['b', [['amps', 9]]]]; add('variant', p, expect='ok')
     for _ in range(ctx.n(4, 20)):
         p = vprog()
@@ -382,7 +383,7 @@ def make_cases(ctx):
                 p['variants'][-1][1].append(['freq', [1, 2, 3]])
             else:
                 p['variants'].append(['k' * 31, [['freq', 1]]])
-            add('variant', p, expect='raise')
+            add('variant', p, expect='model')
         else:
             add('variant', p, expect='ok')
 
@@ -642,8 +643,9 @@ def correspond(ctx):
         sig = SIGS['variant'] if (stage in (1, 6) and k.get('variants')) else None
         c.failures.append(Failure(
             'correspondence',
-            'definition %r (%d units, %d bytes): %s; independent reader: %s' % (
-                k['name'], o['nunits'], len(b), STAGE.get(stage, 'stage %s' % stage), why or 'accepts the bytes'),
+            'definition %r (%d units, %d bytes%s): %s; independent reader: %s' % (
+                k['name'], o['nunits'], len(b), (', variants=%r' % (k['variants'],)) if k.get('variants') else '',
+                STAGE.get(stage, 'stage %s' % stage), why or 'accepts the bytes'),
             signature=sig, found_input=(stage in (1, 2, 4) or why is not None), theorem='scgf_roundtrip' if stage == 1 else None,
             replay={'case': short(k), 'bytes': o['bytes'], 'stage': stage, 'order': o['order'], 'libdesc': o['desc'],
                     'libdesc_exc': o['desc_exc'], 'independent_reader': why}))
